@@ -25,6 +25,7 @@ so they are represented by a single node in the CGraph.
 
 """
 
+import math
 import numpy
 import algopy
 
@@ -112,8 +113,13 @@ def expm_higham_2005(A):
         maxnorm = 5.371920351148152
         # FIXME: this should probably use algopy log,
         #        and algopy max and ceil if they exist.
-        n_squarings = max(0, int(math.ceil(math.log(A_L1 / maxnorm, 2))))
-        A /= 2**n_squarings
+        # the number of squarings is decided on the norm of the zeroth coefficient (the largest one
+        # over the directions); the scaled matrix is a new object, the argument is left unchanged
+        norm0 = A_L1.x if isinstance(A_L1, algopy.Function) else A_L1
+        if isinstance(norm0, algopy.UTPM):
+            norm0 = numpy.max(norm0.data[0])
+        n_squarings = max(0, int(math.ceil(math.log(norm0 / maxnorm, 2))))
+        A = A / 2**n_squarings
         U, V = _expm_pade13(A, ident)
     R = solve(-U + V, U + V)
     for i in range(n_squarings):
